@@ -242,6 +242,10 @@ func (s *Sim) evmScenario(hs *EvmStats) error {
 				name = "transfer-to:" + progOf[c]
 				spec = s.baseTx(1, from, c[:])
 				spec.Amount = fmt.Sprint(100 + r.Intn(900))
+				if r.Intn(4) == 0 { // a transfer of nothing still runs the receiver's code
+					spec.Amount = "0"
+					name += ":zero-amount"
+				}
 				hs.TransfersToContracts++
 			default: // native activity on the same accounts in between
 				spec = s.TxTransfer(from, s.pick(s.all).Addr, fmt.Sprint(1+r.Intn(1000)))
